@@ -47,6 +47,9 @@ class Check(BaseCheck):
                "(evaluated through similarity relations in the oracle)"]
     assumptions = ["PARTIAL: sphere / cylinder clauses are statements about discretisations of particular shapes: monitored, not proved"]
 
+    def translate(self):
+        extract.gen_curv_tria()
+
     def correspond(self, drv, stats):
         fails = []
         # one mesh beyond 2^15 vertices (block-wise / chunked code paths), then the random families
